@@ -789,7 +789,9 @@ class ExprMixin(object):
                     res.append((st1, V({"list": EMPTY_LIST, "set": EMPTY_SET, "dict": EMPTY_DICT}[kind], None)))
                     continue
                 seq = self.adapt(seq, List(seq.items[0].ty))
-            res.append(self._comp(e, g, seq, st1, kind))
+            out = self._comp(e, g, seq, st1, kind)
+            if out is not None:
+                res.append(out)
         return res
 
     def _keyed_comprehension(self, e, g, st, kind):
@@ -875,10 +877,15 @@ class ExprMixin(object):
         saved_written = st.written
         st.written = None
 
+        as_code = not self.in_spec
+        last_raises = []
+
         def at(j):
             s2 = self._bind_elem(g.target, core.lget(seq, j), st.copy())
             self.spec_depth += 1
             n0 = len(self.spec_defs)
+            saved_collect = getattr(self, "comp_collect", None)
+            self.comp_collect = [] if as_code else None
             try:
                 cond = z3.And([truthy(self.ev1(c, s2)) for c in g.ifs] or [z3.BoolVal(True)])
                 if kind == "dict":
@@ -886,13 +893,30 @@ class ExprMixin(object):
                 else:
                     val = self.ev1(e.elt, s2)
                 self.no_defs_under_binder(n0)
+                last_raises[:] = self.comp_collect or []
             finally:
                 self.spec_depth -= 1
+                self.comp_collect = saved_collect
             return cond, val
+
+        def raises_at(j):
+            c, _ = at(j)
+            return z3.And(c, z3.Or([t for _, t in last_raises]))
 
         J0 = z3.Int("comp!probe")
         pc0, proto = at(J0)
         st.written = saved_written
+        if as_code and last_raises:
+            # an element evaluation that raises ends the comprehension: split on "some position that passes the filter raises"
+            ename = last_raises[0][0]
+            bad, ok = self.fork(st, core.exists_int(0, n, raises_at), getattr(e, "lineno", None), "comp-raise")
+            if bad is not None:
+                bad = bad.copy()
+                self.do_raise(bad, self.new_exc(ename, bad, exact=False))
+            if ok is None:
+                return None
+            st = ok.copy()
+            st.assume(core.forall_int(0, n, lambda j: z3.Not(raises_at(j))))
         # a comprehension is a function of its source and of its filter / element expressions: identical
         # (hash-consed) terms give the identical result symbol
         pv = proto if isinstance(proto, tuple) else (proto,)
